@@ -3517,8 +3517,7 @@ void ADFH_Read_Data(const double ID,
       set_error(END_OUT_OF_DEFINED_RANGE, err);
     else if (s_start[n] > s_end[n])
       set_error(MINIMUM_GT_MAXIMUM, err);
-    else if (s_stride[n] < 1 ||
-      s_stride[n] > (s_end[n] - s_start[n] + 1))
+    else if (s_stride[n] < 1)
       set_error(BAD_STRIDE_VALUE, err);
     else
       set_error(NO_ERROR, err);
@@ -3531,11 +3530,11 @@ void ADFH_Read_Data(const double ID,
 #ifdef ADFH_FORTRAN_INDEXING
     start[ndim-1-n] = s_start[n] - 1;
     stride[ndim-1-n] = s_stride[n];
-    count[ndim-1-n] = (s_end[n] - s_start[n] + 1) / s_stride[n];
+    count[ndim-1-n] = (s_end[n] - s_start[n]) / s_stride[n] + 1;
 #else
     start[n] = s_start[n] - 1;
     stride[n] = s_stride[n];
-    count[n] = (s_end[n] - s_start[n] + 1) / s_stride[n];
+    count[n] = (s_end[n] - s_start[n]) / s_stride[n] + 1;
 #endif
   }
 
@@ -3550,8 +3549,7 @@ void ADFH_Read_Data(const double ID,
       set_error(END_OUT_OF_DEFINED_RANGE, err);
     else if (m_start[n] > m_end[n])
       set_error(MINIMUM_GT_MAXIMUM, err);
-    else if (m_stride[n] < 1 ||
-      m_stride[n] > (m_end[n] - m_start[n] + 1))
+    else if (m_stride[n] < 1)
       set_error(BAD_STRIDE_VALUE, err);
     else
       set_error(NO_ERROR, err);
@@ -3565,12 +3563,12 @@ void ADFH_Read_Data(const double ID,
     dims[m_num_dims-1-n] = m_dims[n];
     start[m_num_dims-1-n] = m_start[n] - 1;
     stride[m_num_dims-1-n] = m_stride[n];
-    count[m_num_dims-1-n] = (m_end[n] - m_start[n] + 1) / m_stride[n];
+    count[m_num_dims-1-n] = (m_end[n] - m_start[n]) / m_stride[n] + 1;
 #else
     dims[n] = m_dims[n];
     start[n] = m_start[n] - 1;
     stride[n] = m_stride[n];
-    count[n] = (m_end[n] - m_start[n] + 1) / m_stride[n];
+    count[n] = (m_end[n] - m_start[n]) / m_stride[n] + 1;
 #endif
   }
 
@@ -3859,8 +3857,7 @@ void ADFH_Write_Data(const double ID,
       set_error(END_OUT_OF_DEFINED_RANGE, err);
     else if (s_start[n] > s_end[n])
       set_error(MINIMUM_GT_MAXIMUM, err);
-    else if (s_stride[n] < 1 ||
-      s_stride[n] > (s_end[n] - s_start[n] + 1))
+    else if (s_stride[n] < 1)
       set_error(BAD_STRIDE_VALUE, err);
     else
       set_error(NO_ERROR, err);
@@ -3872,11 +3869,11 @@ void ADFH_Write_Data(const double ID,
 #ifdef ADFH_FORTRAN_INDEXING
     start[ndim-1-n] = s_start[n] - 1;
     stride[ndim-1-n] = s_stride[n];
-    count[ndim-1-n] = (s_end[n] - s_start[n] + 1) / s_stride[n];
+    count[ndim-1-n] = (s_end[n] - s_start[n]) / s_stride[n] + 1;
 #else
     start[n] = s_start[n] - 1;
     stride[n] = s_stride[n];
-    count[n] = (s_end[n] - s_start[n] + 1) / s_stride[n];
+    count[n] = (s_end[n] - s_start[n]) / s_stride[n] + 1;
 #endif
   }
 
@@ -3891,8 +3888,7 @@ void ADFH_Write_Data(const double ID,
       set_error(END_OUT_OF_DEFINED_RANGE, err);
     else if (m_start[n] > m_end[n])
       set_error(MINIMUM_GT_MAXIMUM, err);
-    else if (m_stride[n] < 1 ||
-      m_stride[n] > (m_end[n] - m_start[n] + 1))
+    else if (m_stride[n] < 1)
       set_error(BAD_STRIDE_VALUE, err);
     else
       set_error(NO_ERROR, err);
@@ -3905,12 +3901,12 @@ void ADFH_Write_Data(const double ID,
     dims[m_num_dims-1-n] = m_dims[n];
     start[m_num_dims-1-n] = m_start[n] - 1;
     stride[m_num_dims-1-n] = m_stride[n];
-    count[m_num_dims-1-n] = (m_end[n] - m_start[n] + 1) / m_stride[n];
+    count[m_num_dims-1-n] = (m_end[n] - m_start[n]) / m_stride[n] + 1;
 #else
     dims[n] = m_dims[n];
     start[n] = m_start[n] - 1;
     stride[n] = m_stride[n];
-    count[n] = (m_end[n] - m_start[n] + 1) / m_stride[n];
+    count[n] = (m_end[n] - m_start[n]) / m_stride[n] + 1;
 #endif
   }
 
